@@ -73,6 +73,9 @@ def main():
             silent_before = all(x["t"] > start for x in c["ctrls"]) and len(c["ctrls"]) > 0
             dev("controls_in_force.first_control_after_first_note" if silent_before else "controls_in_force", c,
                 {"force": got_force, "controls": [[round(x["time"] / UNIT, 6), int(x["value"])] for x in pp.controls]}, c["force"])
+        got_ctrls = [[round(x["time"] / UNIT, 6), int(x["value"])] for x in pp.controls]
+        if got_ctrls != [[float(x["t"]), x["v"]] for x in c["new_ctrls"]]:
+            dev("controls_exact", c, got_ctrls, c["new_ctrls"])
         times = [x["time"] for x in pp.controls]
         if any(t < 0 for t in times) or times != sorted(times):
             dev("controls_ordered_from_zero", c, times, "ascending, >= 0")
